@@ -139,6 +139,38 @@ func (w *World) Verify(f *Fake) error {
 	return nil
 }
 
+// OrphanVerify: every RW replica is gone and a rebuilding (WO) replica is still
+// attached. A late or retried verify-rebuild request for it has no healthy
+// replica to be checked against: it must be refused, the replica must not
+// become RW, and a read must fail rather than be served by it.
+func (w *World) OrphanVerify() {
+	if w.Dead {
+		return
+	}
+	st := w.C.VerifState()
+	if modeCount(st, types.RW) > 0 {
+		return
+	}
+	for _, r := range st.Replicas {
+		if r.Mode != types.WO {
+			continue
+		}
+		s := w.rec(Step{K: "verify", Addr: r.Address, Note: "no RW replica left"})
+		err := w.C.VerifyRebuildReplica(r.Address)
+		s.Res = fmt.Sprint(err)
+		w.Res.Count("verify_requests_without_any_RW_replica", 1)
+		post := w.C.VerifState()
+		for _, q := range post.Replicas {
+			if q.Address == r.Address && q.Mode == types.RW {
+				w.FailAny([]string{"C04", "C07", "C18", "C02"}, "rebuilding-replica-promoted-without-any-RW-source", fmt.Sprintf("with no RW replica left, verify-rebuild of the WO replica %s returned %v and it is now listed RW: %s", r.Address, err, digest(post, true)))
+				return
+			}
+		}
+		o, l := w.RandRange()
+		w.IO("read", o, l, nil)
+	}
+}
+
 func (w *World) Remove(f *Fake) {
 	w.rec(Step{K: "remove", Addr: f.Addr})
 	w.C.RemoveReplica(f.Addr)
